@@ -74,9 +74,9 @@ func c15Owner(o string, c ap.CollectionPath) (ds []keyed) {
 		built := ap.IRIf(ap.IRI(o), c)
 		back, name := ap.Split(built)
 		if name != c {
-			add("split-name", fmt.Sprintf("Split(IRIf(%q, %s)) = (%q, %q): wrong collection name", o, c, back, name))
+			add("split-name", fmt.Sprintf("Split(IRIf(%q, %s)) = (%q, %q): wrong collection name", o, c, string(back), string(name)))
 		} else if !oracle.EquivIRI(string(back), o, true) {
-			add("split-owner", fmt.Sprintf("Split(IRIf(%q, %s)) = (%q, %q): owner not equivalent", o, c, back, name))
+			add("split-owner", fmt.Sprintf("Split(IRIf(%q, %s)) = (%q, %q): owner not equivalent", o, c, string(back), string(name)))
 		}
 		viaHelper := c.IRI(ap.IRI(o))
 		owner, err := c.OfActor(viaHelper)
